@@ -802,4 +802,183 @@ theorem run_inv {s : St} (hi : Inv s) (ops : List Op) (hg : GoodHist s ops) : In
   | nil => exact hi
   | cons op ops ih => exact ih (step_inv hi op hg.1) hg.2
 
+/-! ### `select` enumerates the side's view: the domain invariant -/
+
+theorem mem_domAdd (x k : Key) (d : List Key) : x ∈ domAdd k d ↔ x = k ∨ x ∈ d := by
+  induction d with
+  | nil => simp [domAdd]
+  | cons y ys ih =>
+    simp only [domAdd]
+    split
+    · simp
+    · split
+      · rename_i h; subst h; simp
+      · simp [ih]; grind
+
+/-- every row anybody can see has its key in the enumeration domain of `select` -/
+def DomInv (s : St) : Prop := ∀ k, (s.db k).isSome = true ∨ (s.view .T k).isSome = true → k ∈ s.dom
+
+theorem selStep_view (sd sd' : Side) (acc : St × List (Nat × Key)) (k : Key) :
+    (selStep sd acc k).1.view sd' = acc.1.view sd' := by
+  unfold selStep
+  split
+  · rfl
+  · split <;> simp
+
+theorem selStep_keys (sd : Side) (acc : St × List (Nat × Key)) (k : Key) :
+    (selStep sd acc k).2.map Prod.snd = acc.2.map Prod.snd ++ (if (acc.1.view sd k).isSome then [k] else []) := by
+  unfold selStep
+  split
+  · rename_i h; simp [h]
+  · rename_i row h
+    split <;> simp [h]
+
+theorem selFold_keys (sd : Side) (l : List Key) (acc : St × List (Nat × Key)) :
+    (l.foldl (selStep sd) acc).2.map Prod.snd
+      = acc.2.map Prod.snd ++ l.filter fun k => (acc.1.view sd k).isSome := by
+  induction l generalizing acc with
+  | nil => simp
+  | cons k l ih =>
+    simp only [List.foldl_cons]
+    rw [ih, selStep_keys, selStep_view]
+    by_cases h : (acc.1.view sd k).isSome = true <;> simp [h]
+
+theorem DomInv.init (dc : Bool) : DomInv (init dc) := by
+  intro k h; simp [Tx.init, St.view] at h
+
+theorem DomInv.of_frame {s s' : St} (h : DomInv s) (hdb : s'.db = s.db) (hws : s'.ws = s.ws) (hdom : s'.dom = s.dom) :
+    DomInv s' := by
+  intro k hk
+  rw [hdom]
+  apply h k
+  simpa [St.view, hdb, hws] using hk
+
+theorem step_domInv {s : St} (h : DomInv s) (op : Op) : DomInv (step s op).1 := by
+  cases op with
+  | create sd k row =>
+    cases sd with
+    | P =>
+      simp only [step, opCreate]
+      repeat' split
+      · exact h
+      · exact h
+      · intro x hx
+        simp only [St.view, upd_apply] at hx
+        rw [mem_domAdd]
+        by_cases hxk : x = k
+        · exact Or.inl hxk
+        · right; apply h x; simpa [St.view, hxk] using hx
+    | T =>
+      simp only [step, opCreate]
+      repeat' split
+      · exact h
+      · exact h.of_frame rfl rfl rfl
+      · intro x hx
+        simp only [St.view, upd_apply] at hx
+        rw [mem_domAdd]
+        by_cases hxk : x = k
+        · exact Or.inl hxk
+        · right; apply h x; simpa [St.view, hxk] using hx
+  | get sd k b =>
+    simp only [step, opGet]
+    repeat' split
+    all_goals exact h.of_frame (by simp) (by simp) (by simp)
+  | read sd j c =>
+    simp only [step, opRead]
+    repeat' split
+    all_goals exact h.of_frame (by simp) (by simp) (by simp)
+  | set sd j c v =>
+    cases sd with
+    | P =>
+      simp only [step, opSet]
+      repeat' split
+      · exact h
+      · exact h
+      · intro x hx
+        apply h x
+        simp only [St.view, upd_apply] at hx ⊢
+        by_cases hxk : x = (s.p.insts j).key
+        · subst hxk; simp at hx; cases hd : s.db (s.p.insts j).key <;> simp_all
+        · simpa [hxk] using hx
+    | T =>
+      simp only [step, opSet]
+      repeat' split
+      · exact h
+      · exact h
+      · rename_i r hv
+        intro x hx
+        apply h x
+        simp only [St.view, upd_apply] at hx hv ⊢
+        by_cases hxk : x = (s.t.insts j).key
+        · subst hxk; right; rw [hv]; rfl
+        · simpa [hxk] using hx
+      · exact h.of_frame rfl rfl rfl
+  | destroy sd j =>
+    cases sd with
+    | P =>
+      simp only [step, opDestroy]
+      repeat' split
+      · exact h
+      · exact h.of_frame rfl rfl rfl
+      · intro x hx
+        apply h x
+        simp only [St.view, upd_apply] at hx ⊢
+        by_cases hxk : x = (s.p.insts j).key
+        · subst hxk; simp at hx; cases hw : s.ws (s.p.insts j).key <;> simp_all
+        · simpa [hxk] using hx
+    | T =>
+      simp only [step, opDestroy]
+      repeat' split
+      · exact h
+      · exact h.of_frame rfl rfl rfl
+      · intro x hx
+        apply h x
+        simp only [St.view, upd_apply] at hx ⊢
+        by_cases hxk : x = (s.t.insts j).key
+        · subst hxk; simp at hx; exact Or.inl hx
+        · simpa [hxk] using hx
+      · exact h.of_frame rfl rfl rfl
+  | expire sd j =>
+    simp only [step, opExpire]
+    repeat' split
+    all_goals exact h.of_frame (by simp) (by simp) (by simp)
+  | select sd cls =>
+    simp only [step, opSelect]
+    split
+    · exact h
+    · have f := selFold_frame sd (s.dom.filter fun k => clsOf k == cls) (s, [])
+      exact h.of_frame f.1 f.2.2.1 f.2.2.2.2.2.1
+  | drop sd j =>
+    simp only [step, opDrop]
+    repeat' split
+    all_goals exact h.of_frame (by simp) (by simp) (by simp)
+  | weaken sd k => exact h.of_frame (by simp [step]) (by simp [step]) (by simp [step])
+  | purge sd cls => exact h.of_frame (by simp [step]) (by simp [step]) (by simp [step])
+  | commit close =>
+    simp only [step, opCommit]
+    split
+    · exact h
+    · intro x hx
+      apply h x
+      right
+      simpa [St.view] using hx
+  | rollback =>
+    simp only [step, opRollback]
+    split
+    · exact h
+    · intro x hx
+      apply h x
+      left
+      simpa [St.view] using hx
+  | begin =>
+    simp only [step, opBegin]
+    split
+    · exact h.of_frame rfl rfl rfl
+    · exact h
+
+theorem run_domInv {s : St} (h : DomInv s) (ops : List Op) : DomInv (run s ops) := by
+  induction ops generalizing s with
+  | nil => exact h
+  | cons op ops ih => exact ih (step_domInv h op)
+
 end SqlObjVerif.Tx
